@@ -84,6 +84,9 @@ func (e *Encoder) write(p []byte) (int, error) {
 		return 0, e.err
 	}
 	n, err := e.writer.Write(p)
+	if err == nil && n < len(p) {
+		err = io.ErrShortWrite
+	}
 	if err != nil {
 		e.err = err
 	}
